@@ -451,6 +451,28 @@ def oracle_c04(rec, driver=None):
             now = attrs.get(k)
             if now is None or not same_record(old, now[:len(old)]):
                 issues.append(dict(what='record-altered-later', key=k, upto=len(old)))
+    # recorded trees are values too: record t of `best_tree` still is the tree that was dumped at t
+    if 'best_tree' in keys:
+        import treeutil as _T
+        for t, (i, e) in enumerate(dumps):
+            lv = e['live'].get('best_tree')
+            if lv is None or t >= len(attrs['best_tree']):
+                continue
+            node = attrs['best_tree'][t]
+            now = (_T.canon(node), [np.array(n.value, copy=True).tolist() for n in _T.walk(node)[0] if n.value is not None])
+            if now[0] != lv[1] or not same_record(now[1], lv[2]):
+                issues.append(dict(what='record-altered-later', key='best_tree', t=t))
+                break
+    # the last record is the population as the last iteration left it
+    fin = rec.get('final')
+    if fin is not None and dumps and 'agents' in keys and len(attrs['agents']) == N:
+        last = attrs['agents'][-1]
+        now = [(a['real'].tolist(), a['fit']) for a in fin['pop']]
+        if not same_record(last, now):
+            issues.append(dict(what='last-record-is-not-final-state', key='agents', record=repr(last)[:200], final=repr(now)[:200]))
+    if fin is not None and dumps and len(attrs.get('best_agent', [])) == N:
+        if not same_record(attrs['best_agent'][-1], (fin['best']['pos'].tolist(), fin['best']['fit'])):
+            issues.append(dict(what='last-record-is-not-final-state', key='best_agent'))
     # write-through test: change every agent in place, records must not move
     before = {k: repr(v) for k, v in attrs.items() if k != 'best_tree'}
     sp = rec['space']
